@@ -143,13 +143,22 @@ func recurseValidationCode(att *expr.AttributeExpr, put expr.UserType, attCtx *A
 		}
 	case expr.IsMap(att.Type):
 		m := expr.AsMap(att.Type)
-		ctx := attCtx.Dup()
-		ctx.Pointer = false
-		keyVal := validateAttribute(ctx, m.KeyType, put, "k", context+".key", true, view)
+		// Map keys and elements of primitive type are never pointers. Elements
+		// of a user type keep the context: the fields of their type are
+		// pointers when the fields of the enclosing type are.
+		elemCtx := func(a *expr.AttributeExpr) *AttributeContext {
+			if _, ok := a.Type.(expr.UserType); ok && !expr.IsPrimitive(a.Type) {
+				return attCtx
+			}
+			ctx := attCtx.Dup()
+			ctx.Pointer = false
+			return ctx
+		}
+		keyVal := validateAttribute(elemCtx(m.KeyType), m.KeyType, put, "k", context+".key", true, view)
 		if keyVal != "" {
 			keyVal = "\n" + keyVal
 		}
-		valueVal := validateAttribute(ctx, m.ElemType, put, "v", context+"[key]", true, view)
+		valueVal := validateAttribute(elemCtx(m.ElemType), m.ElemType, put, "v", context+"[key]", true, view)
 		if valueVal != "" {
 			valueVal = "\n" + valueVal
 		}
